@@ -15,14 +15,16 @@ Status of the property (see the witnesses in section 5):
   panicked in lower.rs; since the repair 9d4386e padding is not a parameter at all, no
   signature the implementation can build has optional parameters, and `SigsOk` holds for every
   reachable context (the harness keeps `S__` / `S_f` signatures as a regression);
-* statements: the pinned `Visitor::visit_stmt` never looked into three constructs: free blocks
-  `{ .. }` (repaired by 9b7e57b, `walksFreeBlocks = true`), the expressions of `interrupt[e]:` /
-  `+e:` labels, and the declared type of `const T x = e;` (both still unexamined).  Each is a
-  switch of the model.  `stmts_accept_iff_welltyped_partial` is the theorem about the code as it
-  is: free blocks nested to any depth are covered, the remaining side condition is exactly the
-  two unrepaired constructs; `stmts_accept_iff_welltyped_for_cfg` is the same for every setting
-  of the switches, `stmts_accept_iff_welltyped_fixed` the full statement with all of them on, and
-  `stmts_accept_iff_welltyped_status` decides the full statement for whatever `codeCfg` is.
+* statements: TRUE of the code as it is now (`stmts_accept_iff_welltyped`: the full statement,
+  every program, every nesting depth, no side condition).  The pinned `Visitor::visit_stmt`
+  never looked into three constructs: free blocks `{ .. }` (repaired by 9b7e57b), the
+  expressions of `interrupt[e]:` / `+e:` labels and the declared type of `const T x = e;` (both
+  repaired by 353f983); `return` outside a function panicked and assignment to a constant was
+  rejected nowhere (both repaired by 0757655).  Each skipped construct is a switch of the model
+  (`Model/Types.lean`), now all on; the witnesses of section 5 stay as theorems about the
+  switched-off settings, `stmts_accept_iff_welltyped_for_cfg` is the equivalence for every
+  setting, and `stmts_accept_iff_welltyped_status` decides the full statement for whatever
+  `codeCfg` is.
 -/
 namespace TruthModel.C09
 open TruthModel TruthModel.Types
@@ -37,6 +39,7 @@ def exΓ : Ctx where
   sig f := if f = 0 then some [⟨.typed .int, false⟩, ⟨.typed .float, false⟩]
     else if f = 1 then some [⟨.typed .int, false⟩, ⟨.typed .int, true⟩, ⟨.typed .int, true⟩]
     else none
+  isConst n := n = 2
 
 theorem exΓ_sigsOk : SigsOk exΓ := by
   intro f ps h
@@ -213,19 +216,16 @@ theorem stmts_accept_iff_welltyped_blocks_walked (cfg : Cfg) (hb : cfg.walksFree
     checkStmts cfg Γ ρ ss = .ok () ↔ WellTypedStmts Γ ρ ss :=
   checkStmts_iff cfg Γ hΓ ρ ss (coveredS_of_blocks_walked cfg hb Γ ss hc)
 
-/-- The theorem about the code as it is now (free blocks walked, 9b7e57b): `type_check::run`
-accepts exactly the well-typed programs — free blocks, loops, conditionals nested to any depth —
-among the programs whose `interrupt[e]:` / `+e:` label expressions are int literals and whose
-`const` initialisers are literals of the declared type.  Missing for the full statement
-(`stmts_accept_iff_welltyped_full`): those two constructs are still not examined by
-`visit_stmt` (`interrupt_label_accepted`, `rel_time_label_accepted`, `const_decl_accepted`); with
-`checksLabelExprs` / `checksConstDeclTy` switched on the side condition becomes `True`. -/
-theorem stmts_accept_iff_welltyped_partial
-    (Γ : Ctx) (hΓ : SigsOk Γ) (ρ : Option ETy) (ss : Stmts)
-    (hc : LabelsConstsHarmlessS codeCfg Γ ss) :
-    checkStmts codeCfg Γ ρ ss = .ok () ↔ WellTypedStmts Γ ρ ss :=
-  -- `rfl`: `walksFreeBlocks = true` in Model/Types.lean
-  stmts_accept_iff_welltyped_blocks_walked codeCfg rfl Γ hΓ ρ ss hc
+/-- THE PROPERTY for programs, about the code as it is now (all repairs in: 9b7e57b, 353f983,
+0757655): `type_check::run` accepts a program exactly when it is well-typed under the declarative
+rules, wherever the offending construct sits — free blocks, loop bodies, conditions,
+declarations, const items, label expressions, call arguments, to any depth. -/
+theorem stmts_accept_iff_welltyped : stmts_accept_iff_welltyped_full := by
+  intro Γ hΓ ρ ss
+  -- `rfl`: all three switches of `codeCfg` are on in Model/Types.lean
+  have h : codeCfg = fixedCfg := rfl
+  rw [h]
+  exact stmts_accept_iff_welltyped_fixed Γ hΓ ρ ss
 
 -- a program with loops, conditions, declarations and a call nested three levels deep:
 --   script { int v0 = $REG[0] + 1; times($REG[1]) { if (%REG[4] < 1.0) { ins_0(v0, 2.0); } } }
@@ -318,13 +318,33 @@ example : EnvOk exΓ (fun _ => none) exEnv where
           · cases h
     | some s => cases s <;> simp_all [ReadTy, exEnv, Value.ty, sigilTy]
 
-/-! ## 5. Witnesses: where the property is false of the unchanged code -/
+/-! ## 4b. Constants cannot be written to (0757655) -/
+
+/-- an assignment (any operator) whose target is a constant is rejected with
+`cannot assign to a constant`, before anything else about it is examined, and is not
+well-typed; likewise the clobber of `times(x = n)`. -/
+theorem assign_to_const_rejected (cfg : Cfg) (Γ : Ctx) (ρ : Option ETy) (x : Nat)
+    (sig : Option Sigil) (op : AssignOp) (e : TExpr) (hx : Γ.isConst x = true) :
+    checkStmt cfg Γ ρ (.assign ⟨false, x, sig⟩ op e) = .err constAssignErr ∧
+      ¬ WellTypedStmt Γ ρ (.assign ⟨false, x, sig⟩ op e) := by
+  constructor
+  · simp [checkStmt, checkAssign, checkAssignable, hx]
+  · simp [WellTypedStmt, Assignable, hx]
+
+-- `const string v2 = ..; v2 = "a";` is rejected although the types agree; `v0 = 1;` is fine
+example : checkStmt codeCfg exΓ none (.assign ⟨false, 2, none⟩ .assign (.litS "a"))
+    = .err constAssignErr := by decide
+example : checkStmt codeCfg exΓ none (.assign ⟨false, 0, none⟩ .assign (.litI 1)) = .ok () := by
+  decide
+
+/-! ## 5. Witnesses: where the property was false of the pinned code -/
 
 /-- all registers int, all variables int, no signatures -/
 def wΓ : Ctx where
   regTy _ := .typed .int
   varTy _ := .typed .int
   sig _ := none
+  isConst n := n = 0
 
 theorem wΓ_sigsOk : SigsOk wΓ := by intro f ps h; cases h
 
@@ -349,7 +369,7 @@ theorem free_block_accepted (cfg : Cfg) (h : cfg.walksFreeBlocks = false) :
   constructor
   · simp [freeBlockWitness, checkStmts, checkStmt, h, Outcome.andThen]
   · simp only [freeBlockWitness, WellTypedStmts, WellTypedStmt, and_true]
-    rintro ⟨t, hr, he, _⟩
+    rintro ⟨_, t, hr, he, _⟩
     simp only [ReadTy, Ctx.refTy, wΓ] at hr
     simp only [if_true, VarTy.typed.injEq] at hr
     subst hr
@@ -390,9 +410,8 @@ theorem full_false_of_witness (w : Stmts)
 
 /-- The full statement is decided for the code as it is, whatever the switches in
 `Model/Types.lean` are set to: it holds iff all three skipped constructs are examined.
-(Pinned tree: all three `false`; now: free blocks walked, the other two not, so this still is
-`¬ stmts_accept_iff_welltyped_full`; the theorem keeps compiling when a switch is flipped after a
-repair.) -/
+(Pinned tree: all three `false`, i.e. `¬ stmts_accept_iff_welltyped_full`; now all three are on
+and this is `stmts_accept_iff_welltyped_full`; the theorem compiles for every setting.) -/
 theorem stmts_accept_iff_welltyped_status :
     if codeCfg = fixedCfg then stmts_accept_iff_welltyped_full
     else ¬ stmts_accept_iff_welltyped_full := by
@@ -428,6 +447,7 @@ def paddingΓ : Ctx where
   varTy _ := .untyped
   sig f := if f = 0 then some [⟨.typed .int, false⟩, ⟨.typed .int, true⟩, ⟨.typed .float, false⟩]
     else none
+  isConst _ := false
 
 def paddingWitness : TExpr := .call 0 (.cons (.litI 1) (.cons (.litI 2) .nil))
 
@@ -456,10 +476,11 @@ theorem padding_witness :
 theorem check_sound_needs_sigsOk : ¬ ∀ (Γ : Ctx) (e : TExpr) (t : ETy), check Γ e = .ok t → HasType Γ e t :=
   fun h => padding_witness.2 (h _ _ _ padding_witness.1)
 
-/-- `return` outside of every function (`script s { return; }`): `cur_func_stack.last_mut()
-.expect("return outside of function?!")` — a panic of the checker itself, for every setting of
-the switches. -/
-theorem return_outside_function_panics (cfg : Cfg) (Γ : Ctx) (e : Option TExpr) :
+/-- `return` outside of every function (`script s { return; }`): the pinned tree panicked
+(`cur_func_stack.last_mut().expect("return outside of function?!")`); since 0757655 it is the
+diagnostic `'return' outside of a function`.  Either way it is not accepted, for every setting
+of the switches. -/
+theorem return_outside_function_rejected (cfg : Cfg) (Γ : Ctx) (e : Option TExpr) :
     checkStmt cfg Γ none (.ret e) = returnOutsideFunction ∧
       (returnOutsideFunction = .panic "return outside of function?!" ∨
         ∃ c, returnOutsideFunction = .err c) := by
